@@ -16,7 +16,7 @@ for d in $V/seeded/*/; do
   case "$name" in *"${1:-}"*) ;; *) continue ;; esac
   prop=$(python3 -c "import json;print(json.load(open('$d/meta.json'))['property'])")
   (cd "$WT" && git apply "$d/patch.diff") || { echo "SEED $name: patch does not apply"; miss=1; continue; }
-  out=$("$V/bin/govc" check -prop "$prop" -tier quick -repo "$WT" -verif "$SV" -noreplay 2>&1); rc=$?
+  out=$("${GOVC:-$V/bin/govc}" check -prop "$prop" -tier quick -repo "$WT" -verif "$SV" -noreplay 2>&1); rc=$?
   (cd "$WT" && git apply -R "$d/patch.diff")
   obl=$(echo "$out" | grep "failed obligation" | sed 's/^ *failed obligation: *//' | cut -d' ' -f1-2 | head -6 | python3 -c "import sys,json;print(json.dumps([l.strip() for l in sys.stdin]))")
   nv=$(echo "$out" | grep -c '^VIOLATION')
